@@ -281,8 +281,8 @@ def units(tier):
     for shape in range(len(SHAPES)):
         for sweep0 in ((0, 1) if not T else (0, 1, -1)):
             for k1 in range(5):
-                # two-step histories (thorough): on the chain and the mixed forest with / without a sweep before; sized so that the tier ends in < 25 min
-                two = T and shape in (0, 2) and sweep0 in (0, 1)
+                # two-step histories (thorough): on the chain (after a sweep) and the mixed forest (no sweep before); sized so that the tier ends in < 25 min (the full product ran > 30 min twice)
+                two = T and (shape, sweep0) in ((0, 1), (2, 0))
                 combos = [(k1,)] if not two else [(k1, k2) for k2 in range(5)]
                 for kinds, x0 in [(c, x0) for c in combos for x0 in ((1, 2, 3) if k1 in (0, 1, 2) else ((0, 1, 2, 3) if k1 == 3 else (None,)))]:
                     nm = "+".join(KINDS[k] for k in kinds) + ("" if x0 is None else "-" + NODES[x0])
